@@ -873,6 +873,11 @@ type StoreMeta struct {
 	Version   uint64
 	StartNano int64
 	Total     int
+	// capacity and adaptive window/protected split of the saving cache,
+	// restored when the stream is loaded into a cache of the same capacity
+	Capacity          uint
+	WindowCapacity    uint
+	ProtectedCapacity uint
 }
 
 func (m *StoreMeta) Persist(writer io.Writer, blockEncoder *gob.Encoder) error {
@@ -905,6 +910,10 @@ func (s *Store[K, V]) Persist(version uint64, writer io.Writer) error {
 		Version:   version,
 		StartNano: s.timerwheel.clock.Start.UnixNano(),
 		Total:     total,
+
+		Capacity:          s.policy.capacity,
+		WindowCapacity:    s.policy.window.capacity,
+		ProtectedCapacity: s.policy.slru.protected.capacity,
 	}
 	err := meta.Persist(writer, blockEncoder)
 	if err != nil {
@@ -1036,6 +1045,13 @@ func (s *Store[K, V]) Recover(version uint64, reader io.Reader) error {
 			metaSeen = true
 			s.timerwheel.clock.SetStart(m.StartNano)
 			s.policy.sketch.EnsureCapacity(uint(m.Total))
+			// same capacity: continue with the adapted split, so that every
+			// region of the saved cache fits again
+			if m.Capacity == s.policy.capacity && m.WindowCapacity >= 1 &&
+				m.WindowCapacity+m.ProtectedCapacity == s.policy.window.capacity+s.policy.slru.protected.capacity {
+				s.policy.window.capacity = m.WindowCapacity
+				s.policy.slru.protected.capacity = m.ProtectedCapacity
+			}
 		case 2: // window lru
 			entryDecoder := gob.NewDecoder(reader)
 			for {
